@@ -15,6 +15,8 @@ LCell(n) == CASE n = "none" -> <<>>
               [] n = "ortho" -> <<<<8,0,0>>,<<0,9,0>>,<<0,0,10>>>>
               [] n = "tri" -> <<<<8,0,0>>,<<2,9,0>>,<<1,-3,10>>>>
               [] n = "steep" -> <<<<8,0,0>>,<<-5,9,0>>,<<7,-7,10>>>>      \* |xy| > lx/2, |xz| > lx/2, |yz| > ly/2
+              \* rendered at 1e-6 Angstrom per unit: a 20 A box whose tilt factors (0.0002, 0, -0.0003) show only in the last printed digits
+              [] n = "fine" -> <<<<20000000,0,0>>,<<200,20000000,0>>,<<0,-300,20000000>>>>
 CellNames == {"none", "ortho", "tri", "steep"}
 Grp(g, i) == CASE g = "zero" -> 0 [] g = "contig" -> (i % 2) [] g = "gaps" -> 2 * (i % 2) [] g = "high" -> 3 + (i % 2)
 Shift(s, p) == CASE s = "in" -> p [] s = "neg" -> <<-p[1], p[2] - 7, -p[3]>> [] s = "far" -> <<p[1] + 20, p[2], p[3] - 30>>
@@ -39,7 +41,10 @@ Many(style) ==
              angle |-> NoTerms, dihedral |-> NoTerms, improper |-> NoTerms, cell |-> LCell("tri")],
       style |-> style, name |-> <<"many-types", "tri", "contig", "in", "pos">>]
 
+Fine(f) == LET F == Case(f, "fine", "contig", "in", "pos")
+           IN [F EXCEPT !.pos = [i \in 1..Len(F.pos) |-> <<1000000 * F.pos[i][1], 1000000 * F.pos[i][2], 1000000 * F.pos[i][3]>>]]
 Init == \/ \E st \in {"full", "atomic"} : c = Many(st)
+        \/ \E f \in FragNames, st \in {"full", "atomic"} : c = [K |-> Fine(f), style |-> st, name |-> <<f, "fine", "contig", "in", "pos">>]
         \/ \E f \in FragNames, cn \in CellNames, g \in {"zero", "contig", "gaps", "high"}, s \in {"in", "neg", "far"}, qs \in {"pos", "neg"},
            st \in {"full", "atomic"} :
           c = [K |-> Case(f, cn, g, s, qs), style |-> st, name |-> <<f, cn, g, s, qs>>]
